@@ -1,5 +1,6 @@
 """Lmbap (Modbus layer decoder + decodingLayerDecoder sub-check: C19, C05, C01; C06/C07 n/a) configuration for ./check"""
 CONF = {
+    'coq_sample': 10,   # cases re-evaluated inside Coq by vm_compute against the extracted runner's output
     'interesting': ['truncated-prefix-of-valid', 'length-extreme', 'function-code-every-value', 'exception-response', 'trailing-bytes-as-payload',
                     'empty-data', 'registered-decoder', 'error-after-fields-set', 'residue-after-error', 'decode-error', 'malformed', 'seed'],
     'rule': 'Modbus frames built field by field: length field 0,1,2,3,right,off by one,255,256,65529,65530,65535 against 0,1,3 data octets; every '
